@@ -1,5 +1,888 @@
-"""Histories of real vsb runs (storage level).  (Under construction.)"""
+"""Histories of real `vsb backup` runs under a fake clock (storage level): generated trees and edits, per-run snapshot
+of what the run reads, independent decoding of the storage, comparison with the Gallina models (rotation / retention:
+Verify.publish + gc; manifest: Dedup.new_backup; restore: Restore2.exec) and direct evaluation of the properties."""
+import calendar
+import os
+import shutil
+import stat
+import time
+
+from . import build, impl, model, sexp, slevel
+
+BASE = calendar.timegm((2023, 11, 14, 0, 0, 0))
+NAMES = ["a", "b", "c.txt", "sp ace", "ü-ñ", "x" * 40, "d1", "d2", "e.o", ".hid", "n" * 200]
+SIZES = [0, 0, 1, 3, 10, 100, 4095, 4096, 4097, 9000]
+MODES = [0o644, 0o600, 0o755, 0o640, 0o4755, 0o000, 0o1777, 0o444]
+OWNERS = [(0, 0), (1000, 1000), (12345, 54321), (0, 7)]
+MTIMES = [1600000000, 1, 946684800, -315619200, 13569465600, 1700000000, 86399]
+
+
+def day_of(name):
+    y, m, d = int(name[0:4]), int(name[5:7]), int(name[8:10])
+    return (calendar.timegm((y, m, d, 0, 0, 0)) - BASE) // 86400 + 1000
+
+
+def time_of(name):
+    return int(name[11:13]) * 3600 + int(name[14:16]) * 60 + int(name[17:19])
+
+
+class World:
+    def __init__(self, sb, rng, max_groups, max_per, nitems=1, filters=None):
+        self.sb = sb
+        self.rng = rng
+        self.max_groups = max_groups
+        self.max_per = max_per
+        self.src = sb.path("src")
+        self.st = sb.path("st")
+        os.makedirs(self.src)
+        os.makedirs(self.st)
+        os.makedirs(sb.path("home"), exist_ok=True)
+        self.items = ["item%d" % i for i in range(nitems)]
+        self.filters = filters or [None] * nitems
+        self.mtime_counter = 1500000000
+        self.content_counter = 0
+        self.contents = {}          # sha512 hex -> bytes (everything this world ever wrote)
+        for it in self.items:
+            os.makedirs(os.path.join(self.src, it))
+        self.write_config()
+
+    def write_config(self):
+        lines = ["backups:", "  - name: w", "    path: %s" % self.st, "    backup:", "      items:"]
+        for it, f in zip(self.items, self.filters):
+            lines.append("        - path: %s" % os.path.join(self.src, it))
+            if f:
+                lines.append("          filter: |")
+                for l in f:
+                    lines.append("            " + l)
+        lines += ["      max_backup_groups: %d" % self.max_groups, "      max_backups_per_group: %d" % self.max_per]
+        with open(self.sb.cfg, "w") as f:
+            f.write("\n".join(lines) + "\n")
+
+    # ---- tree edits -------------------------------------------------------------------------------------------
+    def fresh_mtime(self):
+        self.mtime_counter += self.rng.randrange(1, 1000)
+        return self.mtime_counter
+
+    def new_content(self, size=None):
+        rng = self.rng
+        if size is None:
+            size = rng.choice(SIZES)
+        if rng.random() < 0.35 and self.contents:
+            c = rng.choice(list(self.contents.values()))
+            return c
+        self.content_counter += 1
+        seed = ("%d-" % self.content_counter).encode()
+        c = (seed * (size // len(seed) + 1))[:size]
+        return c
+
+    def remember(self, data):
+        self.contents[slevel.sha512(data)] = data
+
+    def write_file(self, path, data, mtime=None, mode=None, owner=None):
+        if os.path.lexists(path):
+            self.remove(path)
+        with open(path, "wb") as f:
+            f.write(data)
+        self.remember(data)
+        if owner:
+            os.chown(path, *owner)
+        if mode is not None:
+            os.chmod(path, mode)
+        mt = mtime if mtime is not None else self.fresh_mtime()
+        os.utime(path, ns=(mt * 10 ** 9 + 123456789 % 10 ** 9, mt * 10 ** 9 + (self.rng.randrange(10 ** 9) if mt >= 0 else 0)))
+
+    def remove(self, path):
+        if os.path.islink(path) or not os.path.isdir(path):
+            os.remove(path)
+        else:
+            shutil.rmtree(path)
+
+    def populate(self, depth=3, nfiles=10):
+        rng = self.rng
+        for it in self.items:
+            top = os.path.join(self.src, it)
+            dirs = [top]
+            for _ in range(rng.randrange(1, 5)):
+                parent = rng.choice(dirs)
+                if parent.count("/") - top.count("/") >= depth:
+                    continue
+                d = os.path.join(parent, rng.choice(["d1", "d2", "sp ace", "ü-ñ", ".hid", "sub"]))
+                if not os.path.lexists(d):
+                    os.mkdir(d)
+                    dirs.append(d)
+            for _ in range(nfiles):
+                parent = rng.choice(dirs)
+                p = os.path.join(parent, rng.choice(NAMES))
+                if os.path.lexists(p) or len(p.encode()) > 3500:
+                    continue
+                r = rng.random()
+                if r < 0.78:
+                    self.write_file(p, self.new_content(), mtime=rng.choice(MTIMES) if rng.random() < 0.3 else None,
+                                    mode=rng.choice(MODES), owner=rng.choice(OWNERS))
+                elif r < 0.9:
+                    os.symlink(rng.choice(["a", "../nowhere", "/abs/olute", "t" * 150, "sp ace"]), p)
+                    os.lchown(p, *rng.choice(OWNERS))
+                    os.utime(p, ns=(5 * 10 ** 9, rng.choice(MTIMES) * 10 ** 9), follow_symlinks=False)
+                else:
+                    os.mkdir(p)
+                    dirs.append(p)
+            for d in dirs:
+                os.chmod(d, rng.choice([0o755, 0o700, 0o750, 0o1777]))
+                os.chown(d, *rng.choice(OWNERS))
+            for d in reversed(dirs):
+                mt = rng.choice(MTIMES)
+                os.utime(d, ns=(mt * 10 ** 9, mt * 10 ** 9))
+
+    def all_paths(self, kinds=("file",)):
+        out = []
+        for it in self.items:
+            top = os.path.join(self.src, it)
+            for dp, dn, fn in os.walk(top):
+                for n in fn:
+                    p = os.path.join(dp, n)
+                    k = "sym" if os.path.islink(p) else "file"
+                    if k in kinds:
+                        out.append(p)
+                if "dir" in kinds:
+                    for n in dn:
+                        out.append(os.path.join(dp, n))
+        return sorted(out)
+
+    def edit(self, identity_changes=True):
+        """one random edit; returns a label.  With identity_changes every content change gets a new mtime."""
+        rng = self.rng
+        files = self.all_paths(("file",))
+        dirs = [os.path.join(self.src, it) for it in self.items] + self.all_paths(("dir",))
+        k = rng.randrange(12)
+        if k == 0 and files:
+            p = rng.choice(files)
+            st = os.lstat(p)
+            self.write_file(p, self.new_content(), mode=stat.S_IMODE(st.st_mode), owner=(st.st_uid, st.st_gid))
+            return "modify"
+        if k == 1 and files:
+            p = rng.choice(files)
+            mt = self.fresh_mtime()
+            os.utime(p, ns=(mt * 10 ** 9, mt * 10 ** 9 + 5))
+            return "touch"
+        if k == 2 and files:
+            p = rng.choice(files)
+            q = os.path.join(rng.choice(dirs), rng.choice(NAMES))
+            if not os.path.lexists(q) and len(q.encode()) < 3500:
+                os.rename(p, q)
+                return "rename"
+        if k == 3 and files:
+            self.remove(rng.choice(files))
+            return "delete"
+        if k == 4:
+            q = os.path.join(rng.choice(dirs), rng.choice(NAMES))
+            if not os.path.lexists(q) and len(q.encode()) < 3500:
+                self.write_file(q, self.new_content(), mode=rng.choice(MODES), owner=rng.choice(OWNERS))
+                return "add"
+        if k == 5 and files:
+            p = rng.choice(files)
+            self.remove(p)
+            if rng.random() < 0.5:
+                os.mkdir(p)
+            else:
+                os.symlink("elsewhere", p)
+            return "type change"
+        if k == 6 and files:
+            p = rng.choice(files)
+            os.chmod(p, rng.choice(MODES))
+            return "chmod"
+        if k == 7 and len(files) >= 2:
+            # content moves between paths (both get new identities)
+            a, b = rng.sample(files, 2)
+            da, db = open(a, "rb").read(), open(b, "rb").read()
+            self.write_file(a, db)
+            self.write_file(b, da)
+            return "swap contents"
+        if k == 8 and files:
+            # rewrite the same content with a new identity
+            p = rng.choice(files)
+            self.write_file(p, open(p, "rb").read())
+            return "rewrite same content"
+        if k == 9 and files and not identity_changes:
+            # content changes, identity (inode, mtime) kept, size changed: F6's trigger
+            p = rng.choice(files)
+            st = os.lstat(p)
+            data = open(p, "rb").read()
+            newd = data + b"+" if len(data) < 3 else data[:-1]
+            with open(p, "r+b") as f:
+                f.truncate(0)
+                f.write(newd)
+            self.remember(newd)
+            os.utime(p, ns=(st.st_atime_ns, st.st_mtime_ns))
+            return "same identity, new size"
+        if k == 10 and dirs:
+            d = os.path.join(rng.choice(dirs), rng.choice(["d1", "d2", "newdir"]))
+            if not os.path.lexists(d):
+                os.mkdir(d)
+                return "mkdir"
+        if k == 11 and files and rng.random() < 0.5:
+            p = rng.choice(files)
+            q = p + ".hl"
+            if not os.path.lexists(q) and len(os.path.basename(q).encode()) < 250:
+                os.link(p, q)
+                return "hard link"
+        return "none"
+
+    # ---- what a run reads -------------------------------------------------------------------------------------
+    def allowed(self, item_index, rels):
+        """filter verdicts for item-relative paths, through the Gallina filter model (tag 1400)"""
+        f = self.filters[item_index]
+        if not f or not rels:
+            return {r: True for r in rels}
+        spec = "\n".join(f)
+        res = model.run_driver([[1400, [[ord(c) for c in spec], [list(r.encode()) for r in rels]]]])[0]
+        assert res[0] == 1, "filter spec rejected by the model"
+        return {r: bool(v) for r, v in zip(rels, res[1])}
+
+    def snapshot(self):
+        """entries in the order the run archives them: ancestors of each item root (once), then the recursive walk in
+        directory order consulting the item's filter for every child with the item-relative path"""
+        out = []
+        seen_parents = set()
+        for idx, it in enumerate(self.items):
+            root = os.path.realpath(os.path.join(self.src, it))
+            parts = root.strip("/").split("/")
+            cur = ""
+            for part in parts[:-1]:
+                cur = cur + "/" + part
+                if cur not in seen_parents:
+                    seen_parents.add(cur)
+                    out.append(self.node(cur, "dir"))
+            # collect relative paths first to ask the filter model once
+            order = []
+
+            def walk(p, rel, top):
+                st = os.lstat(p)
+                if stat.S_ISREG(st.st_mode):
+                    order.append((p, rel, "file"))
+                elif stat.S_ISDIR(st.st_mode):
+                    order.append((p, rel, "dir"))
+                    for n in os.listdir(p):
+                        walk(os.path.join(p, n), (rel + "/" + n) if rel else n, False)
+                elif stat.S_ISLNK(st.st_mode):
+                    order.append((p, rel, "sym"))
+                else:
+                    order.append((p, rel, "special"))
+
+            walk(root, "", True)
+            verdict = self.allowed(idx, [rel for _, rel, _ in order if rel])
+            pruned = []
+            for p, rel, kind in order:
+                if rel:
+                    if any(rel == q or rel.startswith(q + "/") for q in pruned):
+                        continue
+                    if not verdict[rel]:
+                        pruned.append(rel)
+                        continue
+                if kind == "special":
+                    continue
+                out.append(self.node(p, kind))
+        return out
+
+    def node(self, p, kind):
+        st = os.lstat(p)
+        n = {"kind": kind, "path": p, "mode": st.st_mode, "uid": st.st_uid, "gid": st.st_gid, "mtime": st.st_mtime_ns // 10 ** 9,
+             "fp": [st.st_dev, st.st_ino, st.st_mtime_ns], "nlink": st.st_nlink}
+        if kind == "file":
+            with open(p, "rb") as f:
+                n["data"] = f.read()
+            self.remember(n["data"])
+        elif kind == "sym":
+            n["target"] = os.fsencode(os.readlink(p))
+        return n
+
+    # ---- the real run -----------------------------------------------------------------------------------------
+    def backup(self, now, prefix=None, env=None):
+        rc, out = self.sb.vsb(["backup", "w"], now=now, prefix=prefix, env=env)
+        return {"exit": rc, "errors": slevel.errors_of(out), "warnings": slevel.warnings_of(out), "out": out}
+
+    def decode(self):
+        return self.sb.read_storage(self.st)
+
+
+# ---- decoded storage helpers -------------------------------------------------------------------------------------
+def parse_manifest(b):
+    """decoded backup -> list of lines (dict) or None"""
+    m = b.get("manifest", {})
+    if "text_hex" not in m:
+        return None
+    text = bytes.fromhex(m["text_hex"])
+    lines = []
+    for ln in text.split(b"\n")[:-1]:
+        parts = ln.split(b" ", 4)
+        if len(parts) != 5:
+            return None
+        d, i, mt = parts[2].split(b":")
+        lines.append({"unique": parts[0] == b"unique", "hash": parts[1].decode(), "fp": [int(d), int(i), int(mt)], "size": int(parts[3]),
+                      "path": parts[4]})
+    return lines
+
+
+def recognised(e):
+    """a final-named backup directory holding both files: what BackupGroup::read keeps"""
+    n = e["name"]
+    if not (e.get("dir") and len(n) == 19 and n[4] == "." and n[10] == "-"):
+        return False
+    files = {f["name"] for f in e.get("files", []) if f.get("file")}
+    return "data.tar.zst" in files and "metadata.zst" in files
+
+
+def listing(dec):
+    """decoded storage -> [(group name, [final backup names], [temporary names], [other names])], and root junk"""
+    out = []
+    for g in dec["groups"]:
+        finals, temps, other = [], [], []
+        for e in g["entries"]:
+            n = e["name"]
+            if e.get("dir") and len(n) == 19 and n[4] == "." and n[10] == "-":
+                files = {f["name"] for f in e.get("files", []) if f.get("file")}
+                if "data.tar.zst" in files and "metadata.zst" in files:
+                    finals.append(n)            # a backup as the listing recognises it
+                else:
+                    other.append(n)             # backup-named directory missing a file: reported, not counted
+            elif e.get("dir") and n.startswith(".") and len(n) == 20:
+                temps.append(n)
+            elif n.startswith("."):
+                pass                            # hidden: ignored by the listing
+            else:
+                other.append(n)
+        out.append((g["name"], finals, temps, other))
+    return out, [j["name"] for j in dec.get("junk", [])]
+
+
+def abstract_groups(dec, hash_ids):
+    """decoded storage -> wire form of Verify.grp list (names classified, hashes numbered)"""
+    gs = []
+    for g in dec["groups"]:
+        ents = []
+        for e in sorted(g["entries"], key=lambda e: e["name"].encode()):
+            n = e["name"]
+            if e.get("dir") and len(n) == 19 and n[4] == "." and n[10] == "-":
+                files = {f["name"] for f in e.get("files", []) if f.get("file")}
+                lines = parse_manifest(e)
+                man = []
+                if lines is not None:
+                    man = [[[int(l["unique"]), hash_ids.setdefault(l["hash"], len(hash_ids) + 1), l["size"]] for l in lines]]
+                ents.append([0, [day_of(n), time_of(n), int("data.tar.zst" in files), int("metadata.zst" in files), man]])
+            elif e.get("dir") and n.startswith(".") and len(n) == 20:
+                ents.append([1])
+            elif n.startswith("."):
+                ents.append([2])
+            else:
+                ents.append([3])
+        gs.append([day_of(g["name"]), ents])
+    return gs
 
 
 def c13_runs(ctx):
-    ctx.notes.append("run histories (completing / failing / killed runs keep the storage healthy) are exercised by the storage-level driver; not in this run yet")
+    ctx.notes.append("run histories (completing / failing / killed runs keep the storage healthy) are exercised by the C02 / C07 / C03 checks, "
+                     "which verify the real storage after every run")
+
+
+# ---- one history ---------------------------------------------------------------------------------------------------
+class History:
+    """Runs a generated history and checks every run against the models and the properties.
+    `focus` selects which property's own statement is evaluated as a violation (others are still compared with the models)."""
+
+    def __init__(self, ctx, sb, rng, focus, max_groups, max_per, nitems=1, filters=None, identity_changes=True):
+        self.ctx = ctx
+        self.rng = rng
+        self.focus = focus
+        self.w = World(sb, rng, max_groups, max_per, nitems, filters)
+        self.identity_changes = identity_changes
+        self.now = BASE + rng.randrange(0, 3) * 86400 + rng.randrange(0, 80000)
+        self.dec = self.w.decode()
+        self.snapshots = {}        # backup name -> snapshot
+        self.max_per_seen = max_per
+        self.log = []              # human-readable history for replays
+        self.hash_ids = {}
+        self.diffs = []            # correspondence differences (label, detail)
+        self.f3_exposed = False
+        self.debris_seeded = False
+        self.backup_damaged = False
+        self.unreadable = None
+        self.model_restore_rate = 0.5
+        self.after_corruption = set()
+
+    def advance(self):
+        step = self.rng.choice([1, 2, 3600, 86400, 86400, 86400, 9 * 86400, 40000])
+        self.now += step
+
+    def name_of_now(self):
+        return time.strftime("%Y.%m.%d-%H:%M:%S", time.gmtime(self.now))
+
+    def diff(self, label, detail):
+        self.diffs.append((label, detail))
+
+    def violation(self, prop, what, extra=None):
+        if prop != self.focus:
+            # another property's statement: recorded as a correspondence-level observation of this check
+            self.diff("property %s" % prop, what)
+            return
+        payload = {"history": self.log[-40:], "limits": [self.w.max_groups, self.w.max_per]}
+        if extra:
+            payload.update(extra)
+        self.ctx.violation("history", what, payload)
+
+    # ---- expected archive / manifest ---------------------------------------------------------------------------
+    def expected_manifest(self, group_backups, snap):
+        """through the Dedup model: manifests of the group's readable backups + the files the run reads"""
+        def content_of(h):
+            c = self.w.contents.get(h)
+            return list(c) if c is not None else [256] + list(bytes.fromhex(h))[:8]
+        g = []
+        for b in group_backups:
+            ls = parse_manifest(b)
+            if ls is None:
+                continue
+            g.append([[int(l["unique"]), content_of(l["hash"]), [l["fp"][0], l["fp"][1], sexp.Z(l["fp"][2])], l["size"], list(l["path"])] for l in ls])
+        files = [[list(os.fsencode(n["path"])), [n["fp"][0], n["fp"][1], sexp.Z(n["fp"][2])], list(n["data"])] for n in snap if n["kind"] == "file"]
+        return model.run_driver([[200, [g, files]]])[0]
+
+    def check_new_backup(self, snap, newb, group_before):
+        """entries and lines of the published backup vs snapshot + model"""
+        ctx = self.ctx
+        lines = parse_manifest(newb)
+        if lines is None:
+            self.violation("C10", "the published backup has an unreadable manifest", {"backup": newb["name"]})
+            return
+        # if an earlier backup of the group has an unreadable manifest the known set is whatever could be loaded; the
+        # model receives only the readable ones, and last_state only if the newest one is readable
+        usable = list(group_before)
+        if usable and parse_manifest(usable[-1]) is None:
+            usable_for_last = False
+        else:
+            usable_for_last = True
+        m = self.expected_manifest(usable if usable_for_last else [b for b in usable] + [{"manifest": {"text_hex": ""}}], snap)
+        exp_lines = m[1]
+        got = []
+        for l in lines:
+            c = self.w.contents.get(l["hash"])
+            got.append([int(l["unique"]), list(c) if c is not None else ["unknown-digest", l["hash"][:16]], [l["fp"][0], l["fp"][1], sexp.Z(l["fp"][2])],
+                        l["size"], list(l["path"])])
+        if got != exp_lines:
+            k = next((i for i, (a, b) in enumerate(zip(got, exp_lines)) if a != b), min(len(got), len(exp_lines)))
+
+            def short(l):
+                return None if l is None else {"unique": l[0], "content_len": len(l[1]), "fp": l[2], "size": l[3], "path": bytes(l[4]).decode("utf-8", "replace")}
+            self.diff("manifest", {"backup": newb["name"], "line": k, "implementation": short(got[k]) if k < len(got) else None,
+                                   "model": short(exp_lines[k]) if k < len(exp_lines) else None, "lines": [len(got), len(exp_lines)]})
+        # archive entries
+        uniq = {bytes(l[4]): bool(l[0]) for l in exp_lines}
+        arch = newb.get("archive", {}).get("entries")
+        if arch is None:
+            self.violation("C10", "the published backup's data archive does not decode with tar + zstd", {"backup": newb["name"]})
+            return
+        exp_e = []
+        for n in snap:
+            p = os.fsencode(n["path"]).lstrip(b"/")
+            base = {"path": p, "mode": n["mode"], "uid": n["uid"], "gid": n["gid"], "mtime": n["mtime"] % (1 << 64)}
+            if n["kind"] == "dir":
+                base.update(type="dir", size=0, sha=slevel.sha512(b""))
+            elif n["kind"] == "sym":
+                base.update(type="sym", size=0, sha=slevel.sha512(b""), target=n["target"])
+            else:
+                d = n["data"] if uniq.get(os.fsencode(n["path"])) else b""
+                base.update(type="file", size=len(d), sha=slevel.sha512(d))
+            exp_e.append(base)
+        got_e = []
+        for e in arch:
+            if "error" in e:
+                got_e.append({"error": e["error"]})
+                continue
+            g = {"path": bytes.fromhex(e["path_hex"]).rstrip(b"/") if e["type"] == "dir" else bytes.fromhex(e["path_hex"]), "mode": e["mode"], "uid": e["uid"], "gid": e["gid"],
+                 "mtime": e["mtime"], "type": e["type"], "size": e["size"], "sha": e["sha512"]}
+            if e["type"] == "sym":
+                g["target"] = bytes.fromhex(e.get("target_hex", ""))
+            got_e.append(g)
+        # ancestors of the item roots live outside the generated tree (sandbox root, /verif/build/tmp, ...): their mtimes move
+        # whenever anything is created next to the tree, so they are compared without mtime
+        roots = [os.fsencode(os.path.realpath(os.path.join(self.w.src, it))).lstrip(b"/") for it in self.w.items]
+        for lst in (exp_e, got_e):
+            for e in lst:
+                if e.get("type") == "dir" and any(r.startswith(e["path"] + b"/") for r in roots):
+                    e["mtime"] = None
+        if got_e != exp_e:
+            k = next((i for i, (a, b) in enumerate(zip(got_e, exp_e)) if a != b), min(len(got_e), len(exp_e)))
+            self.diff("archive", {"backup": newb["name"], "entry": k, "implementation": repr(got_e[k]) if k < len(got_e) else None,
+                                  "model": repr(exp_e[k]) if k < len(exp_e) else None, "entries": [len(got_e), len(exp_e)]})
+        # C10's own statement on the real backup: regular entries and lines one to one and in order, unique prefix hash, extern empty
+        regs = [e for e in arch if e.get("type") == "file"]
+        if len(regs) != len(lines):
+            self.violation("C10", "%d regular archive entries but %d manifest lines in %s" % (len(regs), len(lines), newb["name"]))
+        else:
+            for e, l in zip(regs, lines):
+                if b"/" + bytes.fromhex(e["path_hex"]) != l["path"]:
+                    self.violation("C10", "entry %r and line %r are not aligned in %s" % (bytes.fromhex(e["path_hex"]), l["path"], newb["name"]))
+                    break
+                if l["unique"]:
+                    data = bytes.fromhex(e["data_hex"]) if "data_hex" in e else None
+                    if data is not None and (slevel.sha512(data[:l["size"]]) != l["hash"] or any(data[l["size"]:])):
+                        self.violation("C10", "unique line of %r: the first `size` bytes of its entry do not hash to the recorded hash" % l["path"])
+                        break
+                elif e["size"] != 0:
+                    self.violation("C10", "extern line of %r but its entry carries %d bytes" % (l["path"], e["size"]))
+                    break
+        # truthfulness for static files
+        files = [n for n in snap if n["kind"] == "file"]
+        if len(files) == len(lines):
+            for n, l in zip(files, lines):
+                if l["path"] != os.fsencode(n["path"]) or l["size"] != len(n["data"]) or l["fp"] != n["fp"] or l["hash"] != slevel.sha512(n["data"]):
+                    self.violation("C10", "manifest line of %r does not record the file's length, SHA-512 and (device, inode, mtime)" % l["path"],
+                                   {"line": {k: (v.decode("utf-8", "replace") if isinstance(v, bytes) else v) for k, v in l.items()}})
+                    break
+        for f in newb.get("files", []):
+            if f["mode"] != 0o600:
+                self.violation("C10", "storage file %s/%s has mode %o" % (newb["name"], f["name"], f["mode"]))
+        if newb.get("mode") != 0o700:
+            self.violation("C10", "backup directory %s has mode %o" % (newb["name"], newb.get("mode", 0)))
+
+    # ---- one run -----------------------------------------------------------------------------------------------
+    def run(self, nedits=None, backup_kwargs=None):
+        ctx = self.ctx
+        w = self.w
+        edits = []
+        for _ in range(self.rng.randrange(0, 5) if nedits is None else nedits):
+            e = w.edit(self.identity_changes)
+            if e != "none":
+                edits.append(e)
+        self.advance()
+        snap = w.snapshot()
+        before = self.dec
+        name = self.name_of_now()
+        res = w.backup(self.now, **(backup_kwargs or {}))
+        after = w.decode()
+        self.dec = after
+        self.log.append({"edits": edits, "clock": name, "exit": res["exit"], "errors": res["errors"][:3], "limits": [w.max_groups, w.max_per]})
+        ctx.evaluations += 1
+        for e in edits:
+            ctx.count("edit." + e)
+        lb, _ = listing(before)
+        la, junk_after = listing(after)
+        # ---- rotation / retention vs the model ----
+        day, tm = day_of(name), time_of(name)
+        gs_before = abstract_groups(before, self.hash_ids)
+        root_clean = not [j for j in listing(after)[1] if not j.startswith(".")]
+        mres = model.run_driver([[700, [gs_before, w.max_per, w.max_groups, day, tm, [[1, 1, 1]], int(root_clean)]]])[0]
+        published = any(name in f for _, f, _, _ in la)
+        if mres[0] == 0:
+            ctx.count("run.group-exists")
+            if published or res["exit"] == 0:
+                self.diff("rotation", {"clock": name, "model": "new group would collide with an existing one", "implementation": "published" if published else "exit 0"})
+        else:
+            exp_after = [(g[0], sorted((e[1][0], e[1][1]) for e in g[1] if e[0] == 0), sum(1 for e in g[1] if e[0] == 1)) for g in mres[2]]
+            got_after = [(day_of(g), sorted([(day_of(f), time_of(f)) for f in fin] + [(day_of(f), time_of(f)) for f in o if len(f) == 19 and f[10:11] == "-"]), len(t)) for g, fin, t, o in la]
+            if not published:
+                ctx.count("run.not-published")
+            elif exp_after != got_after:
+                self.diff("rotation", {"clock": name, "model": exp_after, "implementation": got_after})
+            else:
+                ctx.count("run.published")
+                ctx.nontrivial.add(("run", name, len(snap), tuple(edits), tuple(len(f) for _, f, _, _ in la)))
+        self.check_properties(name, res, lb, la, before, after, snap, published)
+        return res, published, name
+
+    def check_properties(self, name, res, lb, la, before, after, snap, published):
+        w = self.w
+        ctx = self.ctx
+        self.max_per_seen = max(self.max_per_seen, w.max_per)
+        clean_before = all(not o for _, _, _, o in lb)
+        # ---- C07 ----
+        for g, fin, _, _ in la:
+            if len(fin) > self.max_per_seen:
+                self.violation("C07", "group %s holds %d backups, max_backups_per_group never exceeded %d" % (g, len(fin), self.max_per_seen))
+        if published:
+            # choice of the group
+            newest_before = lb[-1] if lb else None
+            target_group = [g for g, fin, _, _ in la if name in fin][0]
+            if newest_before and len(newest_before[1]) < w.max_per:
+                if target_group != newest_before[0]:
+                    self.violation("C07", "the newest group %s held %d < %d backups but the run opened/used %s" % (newest_before[0], len(newest_before[1]), w.max_per, target_group))
+            else:
+                if target_group != name[:10]:
+                    self.violation("C07", "a new group should be named by the current date %s, the backup went to %s" % (name[:10], target_group))
+            listing_clean = all(not o for _, _, _, o in la) and not listing(after)[1]
+            firsts_ok = all((not fin) or fin[0][:10] == g for g, fin, _, _ in la)
+            if res["exit"] == 0 or (listing_clean and firsts_ok and not res["errors"]):
+                if len(la) > w.max_groups:
+                    self.violation("C07", "%d groups remain after a clean published run, max_backup_groups is %d" % (len(la), w.max_groups))
+            names_after = [g for g, _, _, _ in la]
+            names_before = [g for g, _, _, _ in lb]
+            removed = [g for g in names_before if g not in names_after]
+            if removed:
+                kept_old = [g for g in names_before if g in names_after]
+                if kept_old and max(removed) > min(kept_old):
+                    self.violation("C07", "removed groups %s are not the oldest ones (kept %s)" % (removed, kept_old))
+                if not clean_before or listing(before)[1]:
+                    self.violation("C07", "groups %s were removed although the storage contained entries that cannot be listed" % removed)
+            if not any(name in fin for _, fin, _, _ in la):
+                self.violation("C07", "the backup just made (%s) is gone after retention" % name)
+        else:
+            gone = [g for g, _, _, _ in lb if g not in [x for x, _, _, _ in la]]
+            if gone:
+                self.violation("C07", "the run did not publish but groups %s were deleted" % gone)
+        # ---- per published backup: manifest / archive / C02 / C09 / C10 ----
+        if published:
+            tg = [g for g in after["groups"] if any(e["name"] == name for e in g["entries"])][0]
+            newb = [e for e in tg["entries"] if e["name"] == name][0]
+            gb = [g for g in before["groups"] if g["name"] == tg["name"]]
+            group_before = [e for e in (gb[0]["entries"] if gb else []) if recognised(e)]
+            self.snapshots[name] = snap
+            self.check_new_backup(snap, newb, group_before)
+            if res["exit"] == 0:
+                self.check_c08(name, snap, newb)
+        # ---- C02 / C09 on every group present (not after the driver itself damaged a backup) ----
+        if published and self.unreadable:
+            self.after_corruption.add(name)
+        for g in ([] if self.backup_damaged else after["groups"]):
+            uniques = []
+            prev_lines = None
+            for e in g["entries"]:
+                if not recognised(e):
+                    continue
+                ls = parse_manifest(e)
+                if ls is None:
+                    prev_lines = None
+                    continue
+                seen_here = []
+                for l in ls:
+                    if l["unique"]:
+                        if (l["hash"] in uniques or l["hash"] in seen_here) and not self.unreadable:
+                            self.violation("C09", "content %s... is stored twice in group %s (again by %r in %s)" % (l["hash"][:12], g["name"], l["path"], e["name"]))
+                        if l["size"] == 0:
+                            self.violation("C09", "an empty file (%r in %s) is recorded as unique" % (l["path"], e["name"]))
+                        seen_here.append(l["hash"])
+                    elif l["size"] != 0 and l["hash"] not in uniques and l["hash"] not in seen_here:
+                        if self.unreadable:
+                            # a manifest of this history was destroyed by the driver: older backups may have lost their data; a backup
+                            # published afterwards must add no damage of its own (C02_run_no_new_damage)
+                            if e["name"] in self.after_corruption:
+                                repeats = prev_lines is not None and any(
+                                    p["path"] == l["path"] and p["fp"] == l["fp"] and p["hash"] == l["hash"] for p in prev_lines)
+                                if not repeats:
+                                    self.violation("C02", "%s/%s (published after a manifest became unreadable) records %r as extern although its hash is "
+                                                   "neither loadable from the group nor a repetition of the previous backup's record" % (g["name"], e["name"], l["path"]))
+                        else:
+                            self.violation("C02", "%s/%s records %r as extern (%d bytes) but no earlier unique record of its hash exists in the group" % (
+                                g["name"], e["name"], l["path"], l["size"]))
+                uniques += seen_here
+                prev_lines = ls
+        # ---- C13: the real verifier on the real storage (only for histories of vsb runs by themselves) ----
+        if self.debris_seeded:
+            return
+        v = impl.run_lines([[1300, [list(self.w.st.encode())]]])[0]
+        if v[0] != 0 or not v[2]:
+            # open known findings: F3 (an empty group left by a failed run is reused on a later date) and
+            # F10 (a backup of a tree without any regular file has an empty manifest)
+            stale_empty = bool(lb) and not lb[-1][1] and lb[-1][0] != name[:10]
+            if stale_empty:
+                self.f3_exposed = True
+            empty_manifest = any(recognised(e) and parse_manifest(e) == [] for g in after["groups"] for e in g["entries"])
+            for fid, hit in (("F3", self.f3_exposed), ("F10", empty_manifest)):
+                if hit:
+                    k = ctx.match_known(lambda f, fid=fid: f.get("id") == fid, any_property=True)
+                    if k:
+                        if self.focus == "C13" and not any(kk["id"] == fid for kk, _ in ctx.known_hits):
+                            ctx.known_hit(k, k["summary"])
+                        ctx.count("known." + fid)
+                        return
+            self.violation("C13", "after the run at %s the real verifier reports the storage inconsistent (listing ok=%s, verified=%s)" % (
+                name, v[1] if v[0] == 0 else None, v[2] if v[0] == 0 else None))
+
+    def check_c08(self, name, snap, newb):
+        arch = newb.get("archive", {}).get("entries") or []
+        have = {bytes.fromhex(e["path_hex"]).rstrip(b"/") for e in arch if "path_hex" in e}
+        for n in snap:
+            if os.fsencode(n["path"]).lstrip(b"/") not in have:
+                self.violation("C08", "exit 0 but %r is not in the published backup" % n["path"])
+                break
+
+    # ---- restore every retained backup --------------------------------------------------------------------------
+    def restore_all(self, sample=None):
+        ctx = self.ctx
+        w = self.w
+        la, _ = listing(self.dec)
+        todo = [(g, b) for g, fin, _, _ in la for b in fin if b in self.snapshots]
+        if sample is not None and len(todo) > sample:
+            todo = self.rng.sample(todo, sample)
+        for g, b in todo:
+            out = w.sb.path("restore-%s" % b.replace(":", ""))
+            shutil.rmtree(out, ignore_errors=True)
+            rc, text = w.sb.vsb(["restore", os.path.join(w.st, g, b), out])
+            ctx.evaluations += 1
+            ctx.count("restore.runs")
+            snap = self.snapshots[b]
+            problem = None
+            if rc != 0:
+                problem = "`vsb restore` of %s exits %d: %s" % (b, rc, slevel.errors_of(text)[:2])
+            else:
+                tree = slevel.scan(out)
+                exp = {}
+                item_roots = [os.path.realpath(os.path.join(w.src, it)) for it in w.items]
+                for n in snap:
+                    exp[n["path"].lstrip("/")] = n
+                for rel in sorted(set(exp) | set(tree)):
+                    if rel not in tree:
+                        problem = "%r was in the backed-up tree but is not restored" % rel
+                        break
+                    if rel not in exp:
+                        problem = "%r is restored but was not in the backed-up tree" % rel
+                        break
+                    n, r = exp[rel], tree[rel]
+                    if n["kind"] != r["type"]:
+                        problem = "%r: type %s restored as %s" % (rel, n["kind"], r["type"])
+                        break
+                    if n["kind"] == "file" and (r["size"] != len(n["data"]) or r["sha512"] != slevel.sha512(n["data"])):
+                        problem = "%r: restored bytes differ" % rel
+                        break
+                    if n["kind"] == "sym" and os.fsencode(r["target"]) != n["target"]:
+                        problem = "%r: symlink target differs" % rel
+                        break
+                    is_ancestor = n["kind"] == "dir" and any(ir.startswith(n["path"] + "/") for ir in item_roots)
+                    if n["kind"] != "sym" and stat.S_IMODE(n["mode"]) != r["mode"]:
+                        problem = "%r: mode %o restored as %o" % (rel, stat.S_IMODE(n["mode"]), r["mode"])
+                        break
+                    if (n["uid"], n["gid"]) != (r["uid"], r["gid"]):
+                        problem = "%r: owner %d:%d restored as %d:%d" % (rel, n["uid"], n["gid"], r["uid"], r["gid"])
+                        break
+                    if n["mtime"] != r["mtime"]:
+                        problem = "%r: mtime %d restored as %d" % (rel, n["mtime"], r["mtime"])
+                        break
+            if not problem and self.rng.random() < self.model_restore_rate:
+                mr = self.model_restore(g, b)
+                if mr in ("undecodable", "too-large"):
+                    ctx.count("restore.model-skipped")
+                elif mr is None or not mr[0]:
+                    self.diff("restore-model", {"backup": b, "model": "abort" if mr is None else "ok=false", "implementation": "exit 0"})
+                else:
+                    from checks.C11 import tree_diff
+                    td = tree_diff(mr[1], tree)
+                    ctx.count("restore.model-compared")
+                    if td:
+                        self.diff("restore-model", {"backup": b, "differences": td[:5]})
+            shutil.rmtree(out, ignore_errors=True)
+            if problem:
+                self.violation("C01", "restoring retained backup %s/%s: %s" % (g, b, problem), {"backup": b})
+                return
+            ctx.nontrivial.add(("restore", b, len(snap)))
+
+    # ---- debris ---------------------------------------------------------------------------------------------------
+    def seed_debris(self):
+        """something in the storage that cannot be listed or parsed, or is merely hidden / temporary"""
+        rng = self.rng
+        w = self.w
+        la, _ = listing(self.dec)
+        k = rng.randrange(7)
+        label = "none"
+        if k == 0:
+            open(os.path.join(w.st, rng.choice([".DS_Store", ".hidden"])), "w").close()
+            label = "hidden file at root"
+        elif k == 1:
+            open(os.path.join(w.st, rng.choice(["notes.txt", "lost+found"])), "w").close()
+            label = "foreign file at root"
+        elif k == 2 and la:
+            g = rng.choice(la)[0]
+            open(os.path.join(w.st, g, rng.choice(["junk", "README"])), "w").close()
+            label = "foreign file in a group"
+        elif k == 3 and la:
+            g = rng.choice(la)[0]
+            os.makedirs(os.path.join(w.st, g, "." + time.strftime("%Y.%m.%d-%H:%M:%S", time.gmtime(self.now - 5))), exist_ok=True)
+            label = "abandoned temporary"
+        elif k == 4 and la:
+            cands = [(g, b) for g, fin, _, _ in la for b in fin]
+            if cands:
+                g, b = rng.choice(cands)
+                try:
+                    os.remove(os.path.join(w.st, g, b, rng.choice(["metadata.zst", "data.tar.zst"])))
+                    label = "backup directory missing a file"
+                    self.backup_damaged = True
+                except FileNotFoundError:
+                    pass
+        elif k == 5 and la:
+            g = rng.choice(la)[0]
+            open(os.path.join(w.st, g, ".hidden"), "w").close()
+            label = "hidden file in a group"
+        elif k == 6:
+            d = time.strftime("%Y.%m.%d", time.gmtime(self.now - rng.randrange(1, 30) * 86400))
+            if not os.path.exists(os.path.join(w.st, d)):
+                os.mkdir(os.path.join(w.st, d), 0o700)
+                label = "empty older group"
+        if label != "none":
+            self.debris_seeded = True
+            self.dec = w.decode()
+            self.log.append({"debris": label})
+            self.ctx.count("debris." + label)
+        return label
+
+    def change_limits(self):
+        self.w.max_groups = self.rng.randrange(1, 5)
+        self.w.max_per = self.rng.randrange(1, 5)
+        self.w.write_config()
+        self.log.append({"limits": [self.w.max_groups, self.w.max_per]})
+
+    def report_diffs(self, name):
+        """model / implementation differences that did not amount to a violation of the focus property"""
+        if self.diffs and not self.ctx.violations:
+            label, detail = self.diffs[0]
+            self.ctx.violation("history-model", "correspondence %s (%s) no longer checks: %d differences, none of which fails the property's own statement"
+                               % (name, label, len(self.diffs)),
+                               {"correspondence": name, "first_difference": detail, "history": self.log[-40:]}, failing_input=False)
+
+    # ---- the restore model on the decoded storage ------------------------------------------------------------------
+    def model_restore(self, group_name, backup_name):
+        """Restore2.exec (tag 1100) on the decoded Layer A of the group; returns (ok, {relpath: node}) or None (abort)"""
+        comp_ids = {}
+
+        def comps(path_bytes):
+            out = []
+            for c in path_bytes.strip(b"/").split(b"/"):
+                out.append(comp_ids.setdefault(c, len(comp_ids) + 1))
+            return out
+
+        def content_of(h):
+            c = self.w.contents.get(h)
+            return list(c) if c is not None else [256] + list(bytes.fromhex(h))[:8]
+        g = [x for x in self.dec["groups"] if x["name"] == group_name][0]
+        wire = []
+        names = {}
+        for e in g["entries"]:
+            if not recognised(e):
+                continue
+            ls = parse_manifest(e)
+            arch = e.get("archive", {}).get("entries")
+            if ls is None or arch is None:
+                return "undecodable"
+            lines = [[int(l["unique"]), content_of(l["hash"]), l["size"], comps(l["path"])] for l in ls]
+            ents = []
+            for a in arch:
+                meta = [a["mode"], a["uid"], a["gid"], sexp.Z(a["mtime"] - (1 << 64) if a["mtime"] >= (1 << 63) else a["mtime"])]
+                p = comps(bytes.fromhex(a["path_hex"]))
+                if a["type"] == "dir":
+                    ents.append([0, p, meta])
+                elif a["type"] == "sym":
+                    ents.append([2, p, meta, list(bytes.fromhex(a.get("target_hex", "")))])
+                else:
+                    if "data_hex" not in a:
+                        return "too-large"
+                    ents.append([1, p, meta, list(bytes.fromhex(a["data_hex"]))])
+            n = day_of(e["name"]) * 100000 + time_of(e["name"])
+            names[e["name"]] = n
+            wire.append([n, lines, ents])
+        res = model.run_driver([[1100, [wire, names[backup_name]]]])[0]
+        if res[0] == 0:
+            return None
+        inv = {v: k for k, v in comp_ids.items()}
+        tree = {}
+        for p, n in res[2]:
+            rel = b"/".join(inv[c] for c in p).decode("utf-8", "surrogateescape")
+            if n[0] == 0:
+                tree[rel] = {"type": "file", "data": bytes(n[1]), "meta": n[2][0] if n[2] else None}
+            elif n[0] == 1:
+                tree[rel] = {"type": "dir", "meta": n[1][0] if n[1] else None}
+            else:
+                tree[rel] = {"type": "sym", "target": bytes(n[1]), "meta": n[2]}
+        return bool(res[1]), tree
